@@ -195,6 +195,8 @@ func newPointerIterator(ctx *Context, pointerType reflect.Type) IteratorFunction
 		if context.TryAddLocalReference(v) {
 			return
 		}
+		context.enterNested()
+		defer context.leaveNested()
 		iterate(context, v.Elem())
 	}
 }
@@ -210,6 +212,8 @@ func newSliceOrArrayAsListIterator(ctx *Context, sliceType reflect.Type) Iterato
 		if context.TryAddLocalReference(v) {
 			return
 		}
+		context.enterNested()
+		defer context.leaveNested()
 
 		context.EventReceiver.OnList()
 		length := v.Len()
@@ -232,6 +236,8 @@ func newMapIterator(ctx *Context, mapType reflect.Type) IteratorFunction {
 		if context.TryAddLocalReference(v) {
 			return
 		}
+		context.enterNested()
+		defer context.leaveNested()
 
 		context.EventReceiver.OnMap()
 		iter := common.MapRange(v)
